@@ -79,6 +79,13 @@ CHECKS.update({
             "Trusted: TLC, pytz (reference for zone offsets, per the statement), CPython datetime. Library abbreviations that are also IANA names are not used as settings values; TIMEZONE='local' is not varied.",
             "DESIGN.md 4 C12"),
 })
+CHECKS.update({
+    "C15": ("model_checking",
+            "TLA+ machine of the calendar parsers (CalParsers.tla: the absolute parser's token loop with the non-Gregorian acceptance and hand-off rules) validated by TLC against every real call; reference conversions from convertdate.persian / hijridate",
+            "Quick: every month start / end (incl. leap-year Esfand 30) and a seeded day of 25 Jalali years and of all Hijri years 1343..1500, numeric spellings in three orders, every listed Persian month name, weekday names, spelled-out days, Persian digits, with and without a clock time (about 7.5k calls); thorough: every Jalali date of 1200..1500 on a 5-year grid plus boundary days of every year, every Hijri date. TLC judges each result against the reference conversion of the written date and checks that the machine reads the written (y, m, d) from the latinised tokens and reproduces the observed value.",
+            "Trusted: TLC, convertdate.persian and hijridate as reference conversions (per the statement), the token projection using the parser's own tables. Numeric spellings follow the module default order MDY.",
+            "DESIGN.md 4 C15"),
+})
 NOT_YET = {}
 
 def main():
